@@ -9,7 +9,7 @@ use crate::visit::{first_outside, Slices};
 use serde_json::json;
 use tls_parser::*;
 
-pub const RULE: &str = "for each of 17 self-delimiting parsers: reference encodings (and their single length-field corruptions 0/1/true-1/true+1/max, and byte-level mutations) x suffixes {1 byte, 64 random bytes, another valid structure of the same kind, the same structure again}; oracle: value(p(b||x)) == value(p(b)) by PartialEq, remainder(p(b||x)) is the slice [consumed, end) of the same buffer by address, outcome class equal whenever b already holds the structure's declared length (computed by an independent calculator), every non-empty slice reachable from the value lies inside [input, input+consumed). Plus defragmenter histories (slices of unbuffered results inside the caller's record, of defragmented results inside the hooked buffer). distinct_nontrivial = distinct (parser, input kind, corruption kind, suffix kind, outcome class, length class) tuples";
+pub const RULE: &str = "for each of 33 self-delimiting parsers (records, handshake, the three extension dispatchers and the 16 single-purpose extension parsers, SCT, DH/EC/signature): reference encodings (and their single length-field corruptions 0/1/true-1/true+1/max, and byte-level mutations) x suffixes {1 byte, 64 random bytes, another valid structure of the same kind, the same structure again}; oracle: value(p(b||x)) == value(p(b)) by PartialEq, remainder(p(b||x)) is the slice [consumed, end) of the same buffer by address, an accepted structure consumes exactly its declared length (computed by an independent calculator), outcome class equal whenever b already holds that declared length, every non-empty slice reachable from the value lies inside [input, input+consumed). Plus defragmenter histories (slices of unbuffered results inside the caller's record, of defragmented results inside the hooked buffer). distinct_nontrivial = distinct (parser, input kind, corruption kind, suffix kind, outcome class, length class) tuples";
 pub const ASSUMPTIONS: &[&str] = &[
     "addresses of empty slices and empty remainders are not judged",
     "TlsExtension::PskExchangeModes(Vec<u8>) is an owned copy by design (not a slice)",
@@ -88,6 +88,11 @@ macro_rules! locality {
                 let consumed = b.len() - rem1.len();
                 if !o1.rem_is_suffix(b, consumed) {
                     bad = Some(("remainder-not-a-suffix-of-input", String::new()));
+                }
+                if let Some(d) = $decl(b) {
+                    if consumed != d {
+                        bad = Some(("consumed-differs-from-declared-length", format!("consumed {} declared {}", consumed, d)));
+                    }
                 }
                 let mut sl = Vec::new();
                 v1.slices(&mut sl);
@@ -171,6 +176,15 @@ pub fn run(ctx: &mut Ctx) {
     ] {
         ctx.floor(&format!("p.{}", p), 3_000);
         ctx.floor(&format!("ok.{}", p), 500);
+    }
+    for p in [
+        "parse_tls_extension_sni", "parse_tls_extension_max_fragment_length", "parse_tls_extension_status_request", "parse_tls_extension_elliptic_curves",
+        "parse_tls_extension_ec_point_formats", "parse_tls_extension_signature_algorithms", "parse_tls_extension_heartbeat", "parse_tls_extension_encrypt_then_mac",
+        "parse_tls_extension_extended_master_secret", "parse_tls_extension_session_ticket", "parse_tls_extension_pre_shared_key", "parse_tls_extension_early_data",
+        "parse_tls_extension_supported_versions", "parse_tls_extension_cookie", "parse_tls_extension_psk_key_exchange_modes", "parse_tls_extension_key_share",
+    ] {
+        ctx.floor(&format!("p.{}", p), 1_000);
+        ctx.floor(&format!("ok.{}", p), 100);
     }
     ctx.floor("class-stability.judged", 100_000);
     ctx.floor("defrag.histories", 1_000);
@@ -275,6 +289,46 @@ pub fn run(ctx: &mut Ctx) {
         }
     });
 
+    // the 16 single-purpose extension parsers are self-delimiting single-extension parsers too
+    ctx.family("tag-parsers", n * 2, |ctx, case: &mut Case| {
+        let r = &mut case.rng;
+        let which = (case.idx % 16) as usize;
+        let own: u16 = [0u16, 1, 5, 10, 11, 13, 15, 22, 23, 35, 41, 42, 43, 44, 45, 51][which];
+        let a = loop {
+            let k = r.below(gen::EXT_GENERATORS as u64) as usize;
+            let a = gen::ext_variant(r, gen::TINY, k);
+            if a.wire_type() == own {
+                break a;
+            }
+        };
+        let mut w = W::new();
+        a.enc(&mut w);
+        let another = gen::ext(r, gen::TINY).to_bytes();
+        for (kind, field, b) in variants(r, &w) {
+            for (sk, x) in suffixes(r, &b, another.clone()) {
+                let tag = (kind, field, sk, a.variant_name());
+                match which {
+                    0 => locality!(ctx, "parse_tls_extension_sni", parse_tls_extension_sni, d_ext, &b, &x, tag),
+                    1 => locality!(ctx, "parse_tls_extension_max_fragment_length", parse_tls_extension_max_fragment_length, d_ext, &b, &x, tag),
+                    2 => locality!(ctx, "parse_tls_extension_status_request", parse_tls_extension_status_request, d_ext, &b, &x, tag),
+                    3 => locality!(ctx, "parse_tls_extension_elliptic_curves", parse_tls_extension_elliptic_curves, d_ext, &b, &x, tag),
+                    4 => locality!(ctx, "parse_tls_extension_ec_point_formats", parse_tls_extension_ec_point_formats, d_ext, &b, &x, tag),
+                    5 => locality!(ctx, "parse_tls_extension_signature_algorithms", parse_tls_extension_signature_algorithms, d_ext, &b, &x, tag),
+                    6 => locality!(ctx, "parse_tls_extension_heartbeat", parse_tls_extension_heartbeat, d_ext, &b, &x, tag),
+                    7 => locality!(ctx, "parse_tls_extension_encrypt_then_mac", parse_tls_extension_encrypt_then_mac, d_ext, &b, &x, tag),
+                    8 => locality!(ctx, "parse_tls_extension_extended_master_secret", parse_tls_extension_extended_master_secret, d_ext, &b, &x, tag),
+                    9 => locality!(ctx, "parse_tls_extension_session_ticket", parse_tls_extension_session_ticket, d_ext, &b, &x, tag),
+                    10 => locality!(ctx, "parse_tls_extension_pre_shared_key", parse_tls_extension_pre_shared_key, d_ext, &b, &x, tag),
+                    11 => locality!(ctx, "parse_tls_extension_early_data", parse_tls_extension_early_data, d_ext, &b, &x, tag),
+                    12 => locality!(ctx, "parse_tls_extension_supported_versions", parse_tls_extension_supported_versions, d_ext, &b, &x, tag),
+                    13 => locality!(ctx, "parse_tls_extension_cookie", parse_tls_extension_cookie, d_ext, &b, &x, tag),
+                    14 => locality!(ctx, "parse_tls_extension_psk_key_exchange_modes", parse_tls_extension_psk_key_exchange_modes, d_ext, &b, &x, tag),
+                    _ => locality!(ctx, "parse_tls_extension_key_share", parse_tls_extension_key_share, d_ext, &b, &x, tag),
+                }
+            }
+        }
+    });
+
     ctx.family("sct", n, |ctx, case: &mut Case| {
         let r = &mut case.rng;
         let l = gen::sct_vec(r, gen::TINY, 4);
@@ -372,4 +426,27 @@ pub fn run(ctx: &mut Ctx) {
         }
     });
     let _ = Out::Incomplete(None);
+}
+
+/// one (parser, b, x) triple under the locality oracle (used by the fuzz target and replay)
+pub fn locality_one(ctx: &mut Ctx, sel: u8, b: &[u8], x: &[u8]) {
+    let tag = "fuzz";
+    match sel % 16 {
+        0 => locality!(ctx, "parse_tls_plaintext", parse_tls_plaintext, d_record, b, x, tag),
+        1 => locality!(ctx, "parse_tls_encrypted", parse_tls_encrypted, d_record, b, x, tag),
+        2 => locality!(ctx, "parse_tls_raw_record", parse_tls_raw_record, d_record, b, x, tag),
+        3 => locality!(ctx, "parse_dtls_plaintext_record", parse_dtls_plaintext_record, d_dtls_record, b, x, tag),
+        4 => locality!(ctx, "parse_tls_message_handshake", parse_tls_message_handshake, d_hs, b, x, tag),
+        5 => locality!(ctx, "parse_dtls_message_handshake", parse_dtls_message_handshake, d_dtls_hs, b, x, tag),
+        6 => locality!(ctx, "parse_tls_extension", parse_tls_extension, d_ext, b, x, tag),
+        7 => locality!(ctx, "parse_tls_client_hello_extension", parse_tls_client_hello_extension, d_ext, b, x, tag),
+        8 => locality!(ctx, "parse_tls_server_hello_extension", parse_tls_server_hello_extension, d_ext, b, x, tag),
+        9 => locality!(ctx, "parse_ct_signed_certificate_timestamp", parse_ct_signed_certificate_timestamp, d_u16, b, x, tag),
+        10 => locality!(ctx, "parse_ct_signed_certificate_timestamp_list", parse_ct_signed_certificate_timestamp_list, d_u16, b, x, tag),
+        11 => locality!(ctx, "parse_dh_params", parse_dh_params, d_dh, b, x, tag),
+        12 => locality!(ctx, "parse_ec_parameters", parse_ec_parameters, decl_ec, b, x, tag),
+        13 => locality!(ctx, "parse_ecdh_params", parse_ecdh_params, d_ecdh, b, x, tag),
+        14 => locality!(ctx, "parse_digitally_signed", parse_digitally_signed, d_sig, b, x, tag),
+        _ => locality!(ctx, "parse_digitally_signed_old", parse_digitally_signed_old, d_u16, b, x, tag),
+    }
 }
